@@ -35,6 +35,10 @@ type cliEnd struct {
 	mu     sync.Mutex
 	out    []*tunnelpb.ClientToServer
 	closed bool // torn down: Send fails
+	// early, when set, yields frames the peer answers with the instant it sees a
+	// new_stream frame: they are delivered to the receive loop, and processed by
+	// it, before Send(new_stream) returns to newStream (a peer that speaks first)
+	early func(sid int64) []*tunnelpb.ServerToClient
 }
 
 func (c *cliEnd) Context() context.Context { return c.ctx }
@@ -48,11 +52,19 @@ func (c *cliEnd) Send(m *tunnelpb.ClientToServer) error {
 		return err
 	}
 	c.mu.Lock()
-	defer c.mu.Unlock()
 	if c.closed {
+		c.mu.Unlock()
 		return io.EOF
 	}
 	c.out = append(c.out, &cp)
+	early := c.early
+	c.mu.Unlock()
+	if _, isNew := cp.Frame.(*tunnelpb.ClientToServer_NewStream); isNew && early != nil {
+		for _, f := range early(cp.StreamId) {
+			c.in.put(f)
+		}
+		synctest.Wait() // the receive loop has dispatched them
+	}
 	return nil
 }
 func (c *cliEnd) Recv() (*tunnelpb.ServerToClient, error) { return c.in.recv() }
@@ -72,6 +84,9 @@ func (c *cliEnd) tearDown() {
 	c.mu.Lock()
 	c.closed = true
 	c.mu.Unlock()
+	// the real tear-down of a forward tunnel is CloseSend on the carrier: the serving end sees the
+	// end of the stream, returns, and the client's Recv then returns io.EOF
+	c.in.end(io.EOF)
 }
 
 type crpc struct {
@@ -214,8 +229,9 @@ func (r *cRun) observe() string {
 		blocked = " B=1"
 	}
 	r.lastObs += " ## " + fmt.Sprintf("D=[%s]", strings.Join(dones, " "))
-	return fmt.Sprintf("F=[%s] D=[%s] E=[%s] T=[%s] L=%s%s", strings.Join(fs, " "), strings.Join(dones, " "),
-		strings.Join(events, ";"), tbl, last, blocked)
+	g := census()
+	return fmt.Sprintf("F=[%s] D=[%s] E=[%s] T=[%s] L=%s G=%d,%d,%d%s", strings.Join(fs, " "), strings.Join(dones, " "),
+		strings.Join(events, ";"), tbl, last, g.loops, g.cwatchers, g.ctrans, blocked)
 }
 
 func (r *cRun) step(op string, do func()) {
@@ -315,7 +331,27 @@ func (r *cRun) frameData(sid int64, first bool, size uint32, total, idx, off, n 
 
 // client calls
 func (r *cRun) newRPC(shape string, md metadata.MD, timeout time.Duration, preCancelled bool, method string) *crpc {
+	return r.newRPCEarly(shape, md, timeout, preCancelled, method, 0)
+}
+
+// newRPCEarly: with early = n > 0 the peer answers the new_stream frame at once
+// with headers a=1 and one complete response message of n bytes, which reach
+// the client while it is still inside newStream.
+func (r *cRun) newRPCEarly(shape string, md metadata.MD, timeout time.Duration, preCancelled bool, method string, early int) *crpc {
 	p := &crpc{shape: shape, sendQ: make(chan func(), 8), recvQ: make(chan func(), 8), cur: -1}
+	if early > 0 && !preCancelled {
+		r.end.mu.Lock()
+		r.end.early = func(sid int64) []*tunnelpb.ServerToClient {
+			return []*tunnelpb.ServerToClient{
+				{StreamId: sid, Frame: &tunnelpb.ServerToClient_ResponseHeaders{ResponseHeaders: mdProto(metadata.Pairs("a", "1"))}},
+				{StreamId: sid, Frame: &tunnelpb.ServerToClient_ResponseMessage{ResponseMessage: &tunnelpb.MessageData{Size: uint32(early), Data: wirePrefix("s", sid, 0, early, 0, early)}}},
+			}
+		}
+		r.end.mu.Unlock()
+		defer func() { r.end.mu.Lock(); r.end.early = nil; r.end.mu.Unlock() }()
+	} else {
+		early = 0
+	}
 	cs := shape == "CS" || shape == "BD"
 	ss := shape == "SS" || shape == "BD"
 	op := fmt.Sprintf("c.new shape=%s m=%s md=%s", shape, hx([]byte(method)), fmtMD(md))
@@ -334,6 +370,11 @@ func (r *cRun) newRPC(shape string, md metadata.MD, timeout time.Duration, preCa
 		p.cancel()
 		op += " cancelled=1"
 		p.cancelled = true
+	}
+	if early > 0 {
+		op += fmt.Sprintf(" early=%d", early)
+		p.respIdx = 1
+		p.cur = 0
 	}
 	r.step(op, func() {
 		str, err := r.ch.Channel().NewStream(ctx, &grpc.StreamDesc{ClientStreams: cs, ServerStreams: ss}, method)
@@ -540,7 +581,11 @@ func runCScenario(t *testing.T, ops *opsWriter, rng *rand.Rand, steps int, hosti
 				if rng.Intn(5) == 0 {
 					to = time.Duration(1+rng.Intn(3)) * time.Second
 				}
-				r.newRPC(shape, md, to, rng.Intn(15) == 0, "/v.S/"+shape)
+				early := 0
+				if rng.Intn(4) == 0 {
+					early = feasible([]int{16, 100, 5000}[rng.Intn(3)])
+				}
+				r.newRPCEarly(shape, md, to, rng.Intn(15) == 0, "/v.S/"+shape, early)
 			case k < 22: // client send
 				p := pick(func(p *crpc) bool { return !p.sendPend && !p.half && !p.sendFailed })
 				if p == nil {
